@@ -228,6 +228,13 @@ mut("c18-optional-none-crash-reintroduced", SC, "    elif token == 'O':\n       
 mut("c18-dict-values-not-converted", SC, "            key: _process_string_field_value(path, item, current_type=t, optional=optional)", "            key: item", ["C18"])
 mut("c18-only-first-list-element", SC, "        return [\n            _process_string_field_value(path, item, current_type=t, optional=optional)\n            for item in value\n        ]", "        return [\n            _process_string_field_value(path, item, current_type=t, optional=optional) if i == 0 else item\n            for i, item in enumerate(value)\n        ]", ["C18"])
 mut("c18-dataclass-decorator-dropped-for-nested", MD, "        imports, kwargs = super().convert_strings_kwargs\n        imports.append(('json_to_models.models', ['ClassType']))\n        kwargs[\"class_type\"] = 'ClassType.Dataclass'", "        imports, kwargs = super().convert_strings_kwargs\n        imports.append(('json_to_models.models', ['ClassType']))\n        if len(self.model.type) > 2:\n            kwargs[\"class_type\"] = 'ClassType.Dataclass'", ["C18"])
+# ---- C19 ----------------------------------------------------------------------------------------------
+mut("c19-header-quote-runs-unbroken", CLI, """.replace('""', '"\\\\"')""", "", ["C19"])
+mut("c19-header-not-raw", CLI, "            'r\"\"\"\\n'", "            '\"\"\"\\n'", ["C19"])
+mut("c19-preamble-before-imports", MB, "    if imports:\n        imports_str = compile_imports(imports) + objects_delimiter\n    if preamble:\n        imports_str += preamble + objects_delimiter", "    if preamble:\n        imports_str += preamble + objects_delimiter\n    if imports:\n        imports_str += compile_imports(imports) + objects_delimiter", ["C19"])
+mut("c19-preamble-twice", MB, "        imports_str += preamble + objects_delimiter\n", "        imports_str += preamble + objects_delimiter\n        if len(classes) > 1:\n            classes[-1] = classes[-1] + objects_delimiter + preamble\n", ["C19"])
+mut("c19-preamble-not-stripped", CLI, "        if preamble:\n            preamble = preamble.strip()\n        self.preamble = preamble or None", "        self.preamble = preamble or None", ["C19"])
+mut("c19-preamble-dedented", CLI, "            preamble = preamble.strip()", "            preamble = '\\n'.join(line.strip() for line in preamble.strip().split('\\n'))", ["C19"])
 # ---- neutral (behaviour preserving) -------------------------------------------------------------------
 mut("neutral-rename-local", G, "        fields_sets = [self._convert(data) for data in data_variants]\n        fields = self.merge_field_sets(fields_sets)",
     "        variants = [self._convert(data) for data in data_variants]\n        fields = self.merge_field_sets(variants)", ["C01", "C02", "C05"], kind="neutral")
